@@ -217,6 +217,14 @@ def run(ctx):
             for (mode, names_, conf) in groups.instances(st, rnd, True)[:5 if quick else 12]:
                 body = "\r".join(("%s|1|2^3&4~5|20200101" % x) if k_ % 2 else groups.seg_text(x, k_ + 1, v) for k_, x in enumerate(names_[1:]))
                 texts.setdefault(groups.msh(v, sid) + "\r" + body, "structure:%s:%s:%s" % (v, sid, mode))
+    # a second header-like line, segment names in lower / mixed case, lines made of delimiters only
+    hdr = "MSH|^~\\&|A|B|C|D|20200101||ADT^A01^ADT_A01|1|P|2.5"
+    for k_, line in enumerate(["MSH~~", "MSH^", "MSH|", "MSH||", "MSH", "msh|^~\\&|x", "Msh|^~\\&|x|y", "pid|1||5", "Pid|1", "MSH|x|y", "MSH&&",
+                               "MSH\\", "MSH~", "msh", "evn||2020", "|||", "^^^", "~~~", "&&&", "PID", "PID|", "PID~~", "ZZZ", "zzz|a", "MSH|^~\\&",
+                               "MSH|^~\\&|", "MSH#"]):
+        texts.setdefault(hdr + "\r" + line, "second_line:%d" % k_)
+        texts.setdefault(hdr + "\rPID|1\r" + line + "\rPV1|1", "middle_line:%d" % k_)
+        texts.setdefault(line + "\r" + hdr, "first_line:%d" % k_)
     toks = ["MSH", "|", "^~\\&", "^~\\&#", "\r", "PID", "ADT^A01", "2.5", "2.7", "x", "&", "~", "\\", " ", "\n", "ZZZ|a", "MSH|^~\\&|"]
     for _ in range(1500 if quick else 40000):
         t = "".join(rnd.choice(toks) for _ in range(rnd.randint(1, 8)))
